@@ -133,6 +133,25 @@ impl<const M: usize> Sim<M> {
             }
         }));
         let ev = self.end(rep, OpKind::Alloc);
+        {
+            // measured coverage of the allocation fast path: which alignment branch, what happened,
+            // and where the finger stood (residue mod 16) when the request arrived
+            let branch = if align < M { "less" } else if align == M { "equal" } else { "greater" };
+            let what = match &r {
+                Ok(Some(_)) => {
+                    if self.acquired > 0 {
+                        "newchunk"
+                    } else {
+                        "fit"
+                    }
+                }
+                _ => "fail",
+            };
+            let cls = if size == 0 { "zst" } else if size <= cap_before { "le_cap" } else { "gt_cap" };
+            let finger_res = self.last_obs.as_ref().and_then(|o| o.chunks.first().map(|c| c.0 % 16)).unwrap_or(99);
+            rep.bump(&format!("path.{}.{}.{}", branch, what, cls));
+            rep.distinct.insert(crate::report::fnv(crate::report::fnv(0xFA57, branch.len() as u64 * 16 + what.len() as u64), crate::report::fnv(cls.len() as u64 * 64 + finger_res as u64, (align.trailing_zeros() as u64) << 8 | M as u64)));
+        }
         let out = match r {
             Ok(Some(p)) => {
                 let id = self.next_id;
